@@ -64,6 +64,10 @@ A_QUAD = ['', 'a', 'A', '1', 'a1', '1a', 'ab', 'a1b', '-', '.', 'a-b',
 A_OPT = _uniq(A_TRIPLE + ['Z', ']', '\\', ' ', 'x_y', ' a ', 'a-', '-a',
                           'A-1', 'a  b'])
 
+# quick-tier reductions
+A_TRIPLE_Q = [x for x in A_TRIPLE if x not in ('1a', 'c-d', 'a ', '12')]
+A_OPT_Q = A_OPT[:34]
+
 # sampled path: 8-string sub-alphabet
 A_SAMPLED = ['a', '1', '-', 'ab', '12', 'a-b', 'A', ' ']
 
@@ -282,3 +286,42 @@ def bracket_faults(log, seed):
 def n_draws(log):
     return sum(1 for ev in log if ev[0] in ('sample', 'random')
                or ev[0].startswith('other:'))
+
+
+# ------------------------------------------------------------- watchdog
+
+class CaseTimeout(BaseException):
+    """raised inside whatever code is running when a case has used more CPU
+    time than allowed (a hang in tdda then surfaces as a violation
+    `uncaught:CaseTimeout` through the engine, not as a stuck run)"""
+
+
+class Watchdog(object):
+    """CPU-time (not wall-clock) limit for one case; after `max_trips`
+    time-outs in this process `tripped()` tells the driver to stop running
+    further cases (the check has failed already)."""
+    trips = 0
+    max_trips = 3
+
+    def __init__(self, cpu_seconds):
+        self.secs = cpu_seconds
+
+    @classmethod
+    def tripped(cls):
+        return cls.trips >= cls.max_trips
+
+    def _fire(self, signum, frame):
+        Watchdog.trips += 1
+        raise CaseTimeout('case used more than %d s of CPU' % self.secs)
+
+    def __enter__(self):
+        import signal
+        self._old = signal.signal(signal.SIGVTALRM, self._fire)
+        signal.setitimer(signal.ITIMER_VIRTUAL, self.secs)
+        return self
+
+    def __exit__(self, *exc):
+        import signal
+        signal.setitimer(signal.ITIMER_VIRTUAL, 0)
+        signal.signal(signal.SIGVTALRM, self._old)
+        return False
